@@ -98,6 +98,12 @@ def variants(rng, cfg, sh):
                 v = dict(b)
                 v[key] = existing[0].path(ns)
                 out.append((v, '%s/ns%d/duplicate' % (kind, pos)))
+            # duplicate of an entry of the other kind (a directory where a file is, a file where a directory is)
+            other = [n for n in sh.nodes if n.parent is not None and ns in n.names and n.parent.parent is None and (n.kind == 'dir') != (kind == 'adddir')]
+            if other:
+                v = dict(b)
+                v[key] = other[0].path(ns)
+                out.append((v, '%s/ns%d/duplicate-other-kind' % (kind, pos)))
             # missing parent
             v = dict(b)
             v[key] = '/NOSUCHDIR/X' + (';1' if key == 'iso' and kind != 'adddir' else '')
@@ -273,6 +279,24 @@ def run_history(ctx, rng, cfg, nops):
     if files_i and rng.random() < 0.4:
         boot = rng.choice(files_i).path('i')
         op = {'op': 'eltorito', 'boot': boot, 'kw': {}}
+        isolinux = rng.random() < 0.5
+        if isolinux:
+            # an isolinux boot image, so that add_isohybrid gets past its signature test and can be refused for its parameters
+            bdata = isoapi.isolinux_boot(2048, 0x41)
+            bop = {'op': 'addfp', 'cid': 970, 'n': len(bdata), 'hex': bdata.hex(), 'iso': '/ZZISOLNX.;1'}
+            if cfg.get('rr'):
+                bop['rr'] = 'zzisolnx'
+            with isoapi.frozen_time():
+                rb = s.apply(bop)
+            if rb == 'ok':
+                s.record(bop, rb)
+                boot = '/ZZISOLNX.;1'
+                op = {'op': 'eltorito', 'boot': boot, 'kw': {'boot_load_size': 4}}
+            else:
+                isolinux = False
+                ops = list(s.ops)
+                s.close()
+                s = histcheck.replay_session(cfg, ops, tempfile.gettempdir())
         with isoapi.frozen_time():
             res = s.apply(op)
         if res == 'ok':
@@ -299,6 +323,8 @@ def run_history(ctx, rng, cfg, nops):
                     ({'op': 'isohybrid', 'kw': {}}, 'isohybrid/not-isolinux'),
                     ({'op': 'isohybrid', 'kw': {'part_entry': 9}}, 'isohybrid/bad-part-entry'),
                     ({'op': 'isohybrid', 'kw': {'geometry_heads': 300}}, 'isohybrid/bad-geometry'),
+                    ({'op': 'isohybrid', 'kw': {'mac': True}}, 'isohybrid/mac-without-efi-sections'),
+                    ({'op': 'isohybrid', 'kw': {'efi': True}}, 'isohybrid/efi-without-efi-section'),
                     ({'op': 'isohybrid', 'kw': {'geometry_sectors': 64}}, 'isohybrid/bad-geometry-sectors'),
                     ({'op': 'rmfile', 'ns': 'i', 'path': boot}, 'rmfile/boot-file'),
                     ({'op': 'rmisohybrid'}, 'rmisohybrid/none')):
@@ -374,6 +400,15 @@ def directed_refusals(ctx):
                 ({'op': 'rmdir', 'iso': '/E', 'udf': '/g'}, 'rmdir/ns3/two-entries'),
                 ({'op': 'rmdir', 'iso': '/F', 'udf': '/f'}, 'rmdir/same-dir/udf-only-child'),
                 ({'op': 'rmdir', 'iso': '/E', 'udf': '/z'}, 'rmdir/ns3/is-file')]
+        sym = {'op': 'addsym', 'udf': '/e/symx', 'utarget': 'a/' + 'x' * 300}
+        cand.append((dict(sym), 'addsym/udf-only/target-component-too-long'))
+        if cfg.get('rr'):
+            sym2 = dict(sym, iso='/E/SYMX.;1', rr='symx', target='ok')
+            if cfg.get('joliet'):
+                sym2['joliet'] = '/e/symx'
+            cand.append((sym2, 'addsym/ns3/target-component-too-long'))
+        cand.append(({'op': 'adddir', 'iso': '/NEWD', 'udf': '/z', **({'rr': 'newd'} if cfg.get('rr') else {})}, 'adddir/ns3/name-of-a-file'))
+        cand.append(({'op': 'addfp', 'cid': 9, 'n': 4, 'iso': '/NEWF.;1', 'udf': '/g', **({'rr': 'newf'} if cfg.get('rr') else {})}, 'addfp/ns3/name-of-a-directory'))
         if cfg.get('joliet'):
             cand += [({'op': 'rmdir', 'iso': '/E', 'joliet': '/g'}, 'rmdir/ns2/not-empty'),
                      ({'op': 'rmdir', 'joliet': '/e', 'udf': '/f'}, 'rmdir/joliet+udf/one-udf-entry'),
